@@ -42,6 +42,28 @@ def run(tier):
         vg = build(drv, "vg")
         go(vg, [base + ["--mode", "shared", "--steps", 3000, "--shard", "%d/%d" % (200 + i, N)] for i in range(N)], None,
            "shared(valgrind)", valgrind=True)
+    # item 4: the Python reference implementation, random year sequences vs a fresh instance
+    import c03lib
+    import c03worker
+    import tzpipe
+    import tzsrc
+    import random
+    src = c03worker.recon("zonedbx")
+    comp = tzpipe.compile_source(tzpipe.write_input_dir(tzsrc.render_long(src), vlib.scratch() / "in"), "extended", 2000, 2050)
+    rng = random.Random(seed)
+    names = sorted(comp.zone_infos)
+    pick = names if tier != "quick" else rng.sample(names, 96)
+    items = [{"mode": "history", "zone_infos": sh, "segments": {}, "start_year": 2000, "until_year": 2050, "seed": seed + i,
+              "steps": 80 if tier == "quick" else 400}
+             for i, sh in enumerate(c03lib.shard_dict({n: comp.zone_infos[n] for n in pick}, N))]
+    m = c03lib.run_py_workers(items, vlib.scratch() / "pyhist")
+    for f in m["failed"]:
+        v.inconclusive_because("python history worker failed: " + f["stderr"][-300:])
+    for w in m["witnesses"]:
+        v.violation(w["key"], w["what"], w)
+    tot["python.history_steps"] = m["counters"].get("history_steps", 0)
+    if tot["python.history_steps"] < 1000:
+        v.inconclusive_because("python history steps too low")
     if tot.get("pairs.hist.pair_zones", 0) < 655 or tot.get("hist.shared_steps", 0) < 100000 or tot.get("hist.manager_steps", 0) < 100000:
         v.inconclusive_because("deciding counters too low: %r" % tot)
     v.coverage.update({
@@ -53,7 +75,8 @@ def run(tier):
                 "getDeltaOffset, getAbbrev, getOffsetDateTime}, executed as op1(a); op2(b); op2(b) on a fresh object; (2) 2..4 "
                 "TimeZone values of different zones bound to one processor, seeded interleavings of 7 operations incl. printTo/"
                 "printShortTo as first operation; (3) Basic/ExtendedZoneManager<1..4> holding 2*SIZE+1 zones created by name/id/"
-                "index/info, seeded interleavings. Crashes are attributed to the open call by a signal-safe journal; a call that "
+                "index/info, seeded interleavings; (4) the Python ZoneSpecifier on freshly compiled tables: seeded sequences of instants and "
+                "local date-times (with revisits and year-boundary instants) vs a fresh instance per query. Crashes are attributed to the open call by a signal-safe journal; a call that "
                 "burns > 4 s CPU is reported as a hang. distinct = distinct (zone, a, b, op1, op2) histories.",
         "samples": samples[:8],
         "counters": tot,
